@@ -30,7 +30,13 @@ func filePath(i int) string { return filepath.Join(depthDir[(i-1)%3], fmt.Sprint
 // materialise writes the import graph as a directory tree (file i at depth (i-1) mod 3, imports
 // written relative to the importing file). variant adds harness-level extras: a repeated entry
 // and a directory import.
-func materialise(root string, c impCase, variant int) (extraTasks []string) {
+func materialise(root string, c impCase, variant int, rootFile ...string) (extraTasks []string) {
+	filePath := func(i int) string {
+		if i == 1 && len(rootFile) > 0 {
+			return rootFile[0]
+		}
+		return filePath(i)
+	}
 	for i := 1; i <= c.NF; i++ {
 		p := filepath.Join(root, filePath(i))
 		_ = os.MkdirAll(filepath.Dir(p), 0o755)
@@ -150,12 +156,22 @@ func CheckC17(env *core.Env, rep *core.Report) *core.Result {
 		c := sel[i]
 		root := env.Sub("imp")
 		variant := i % 4
-		extra := materialise(root, c, variant)
-		rootArg := filepath.Join(root, filePath(1))
-		if i%2 == 1 {
-			rootArg = filePath(1) // the root given relative to the working directory
+		defaultName := i%5 == 2
+		rootFile := filePath(1)
+		if defaultName {
+			rootFile = "tasks.yaml" // file 1 under the name taskctl looks for by default
 		}
-		res := e.run(root, "", 10*time.Second, "-c", rootArg, "list", "tasks")
+		extra := materialise(root, c, variant, rootFile)
+		rootArg := filepath.Join(root, rootFile)
+		if i%2 == 1 {
+			rootArg = rootFile // the root given relative to the working directory
+		}
+		cfgArgs := []string{"-c", rootArg}
+		if defaultName {
+			// the configuration is found by its default name instead of being named with -c
+			cfgArgs, rootArg = nil, "(tasks.yaml found in the working directory)"
+		}
+		res := e.run(root, "", 10*time.Second, append(append([]string{}, cfgArgs...), "list", "tasks")...)
 		atomic.AddInt64(&n, 1)
 		detail := map[string]interface{}{"case": c, "root_argument": rootArg, "variant": []string{"plain", "entry repeated", "directory import", "directory import with a child that imports"}[variant], "stdout": res.Stdout, "stderr": tailS(res.Stderr, 500), "exit": res.Exit}
 		add := func(kind, what string) {
@@ -191,7 +207,7 @@ func CheckC17(env *core.Env, rep *core.Report) *core.Result {
 			add("result-is-not-the-closure", fmt.Sprintf("loaded tasks %v, the import closure defines %v", got, want))
 		}
 		// each file taken once: the shared pipeline has one stage per file of the closure
-		g := e.run(root, "", 10*time.Second, "-c", rootArg, "graph", "p")
+		g := e.run(root, "", 10*time.Second, append(append([]string{}, cfgArgs...), "graph", "p")...)
 		if g.Exit != 0 || g.TimedOut {
 			add("pipeline-broken-by-import", "graph p failed: "+lastLine(g.Stderr))
 		}
